@@ -128,7 +128,13 @@ impl<'a> Tr<'a> {
     fn assigned_outer(&self, e: &Expr) -> Vec<String> {
         let mut f = AssignFinder { declared: vec![HashSet::new()], found: Vec::new() };
         syn::visit::Visit::visit_expr(&mut f, e);
-        f.found.into_iter().filter(|n| self.lookup(n).is_some()).collect()
+        // a `let x: T;` variable that is first assigned inside `e` and never mentioned after the current statement is
+        // local to the branch that assigns it (`let utf8e; let sep = match .. { A => { utf8e = ..; utf8e.as_str() } .. }`)
+        f.found
+            .into_iter()
+            .filter(|n| self.lookup(n).is_some())
+            .filter(|n| !(self.deferred.contains(n) && !self.live_after.iter().any(|s| s.contains(n))))
+            .collect()
     }
 
     fn pure_line(value: Option<&str>, outs: &[String]) -> String {
@@ -164,7 +170,9 @@ impl<'a> Tr<'a> {
     /// the statements of a block as the lines of a `do` body ending in `pure (…)` (or a diverging term)
     fn block_lines(&mut self, stmts: &[Stmt], outs: &[String], want_value: bool, expect: Option<&Ty>) -> R<(Vec<String>, Ty, bool)> {
         self.scopes.push(HashMap::new());
+        self.live_after.push(HashSet::new());
         let r = self.block_lines_inner(stmts, outs, want_value, expect);
+        self.live_after.pop();
         self.scopes.pop();
         r
     }
@@ -174,6 +182,25 @@ impl<'a> Tr<'a> {
         let n = stmts.len();
         for (k, s) in stmts.iter().enumerate() {
             let is_last = k + 1 == n;
+            // names mentioned by the rest of this block
+            {
+                struct U(HashSet<String>);
+                impl<'ast> syn::visit::Visit<'ast> for U {
+                    fn visit_expr_path(&mut self, p: &'ast syn::ExprPath) {
+                        if p.path.segments.len() == 1 {
+                            self.0.insert(p.path.segments[0].ident.to_string());
+                        }
+                    }
+                    fn visit_item(&mut self, _: &'ast syn::Item) {}
+                }
+                let mut u = U(HashSet::new());
+                for later in &stmts[k + 1..] {
+                    syn::visit::Visit::visit_stmt(&mut u, later);
+                }
+                if let Some(top) = self.live_after.last_mut() {
+                    *top = u.0;
+                }
+            }
             match s {
                 Stmt::Item(syn::Item::Const(c)) => {
                     // a constant local to the function: an ordinary immutable binding
@@ -287,6 +314,7 @@ impl<'a> Tr<'a> {
                 if let Pat::Ident(pi) = pat {
                     let t = ann.unwrap_or_else(|| self.sub.fresh());
                     self.declare(&pi.ident.to_string(), t);
+                    self.deferred.insert(pi.ident.to_string());
                     return Ok(false);
                 }
                 return self.err(l.span(), "uninitialised `let` with a pattern");
